@@ -100,10 +100,15 @@ def model_value(model, term):
     return str(v)
 
 
+DUMP_DIR = os.environ.get("PYSX_DUMP_DIR")      # debugging: write every obligation query as SMT-LIB2
+_DUMP_N = [0]
+
+
 class Config:
     def __init__(self, logic=None, feas_rlimit=20_000_000, ob_rlimit=200_000_000, max_decisions=400,
                  fresh_feas=False, ob_timeout_ms=0, feas_timeout_ms=0, max_cex_per_ob=6, max_paths=None,
-                 max_alternatives=48, soft_alternatives=0, soft_samples=0, approx_rlimit=None, approx_timeout_ms=None):
+                 max_alternatives=48, soft_alternatives=0, soft_samples=0, approx_rlimit=None, approx_timeout_ms=None,
+                 falsify_samples=0, falsify_first_rlimit=30_000_000, falsify_first_ms=20_000, falsify_budget_s=90):
         self.logic = logic
         self.feas_rlimit = feas_rlimit
         self.ob_rlimit = ob_rlimit
@@ -118,6 +123,10 @@ class Config:
         self.soft_samples = soft_samples              # ... plus models completed from randomly pinned inputs
         self.approx_rlimit = approx_rlimit            # effort cap for obligations on paths with rounding-dependent choices
         self.approx_timeout_ms = approx_timeout_ms
+        self.falsify_samples = falsify_samples        # sub-box counterexample search when a query is not settled quickly
+        self.falsify_first_rlimit = falsify_first_rlimit
+        self.falsify_first_ms = falsify_first_ms
+        self.falsify_budget_s = falsify_budget_s
 
 
 def _mk_solver(logic, rlimit, timeout_ms=0):
@@ -390,15 +399,19 @@ class Run:
     def reach(self, label):
         self.stats.reach[label] = self.stats.reach.get(label, 0) + 1
 
-    def check_sat(self, extra, logic=None, rlimit=None, timeout_ms=None):
+    def check_sat(self, extra, logic=None, rlimit=None, timeout_ms=None, pc=None):
         """Fresh-solver satisfiability of pc + extra.  Returns (verdict, model)."""
         t0 = time.time()
         s = _mk_solver(logic if logic is not None else self.cfg.logic, rlimit or self.cfg.ob_rlimit,
                        timeout_ms or self.cfg.ob_timeout_ms)
-        for c in self.pc:
+        for c in (self.pc if pc is None else pc):
             s.add(c)
         for e in extra:
             s.add(e)
+        if DUMP_DIR:
+            _DUMP_N[0] += 1
+            with open(os.path.join(DUMP_DIR, "q%d_%05d.smt2" % (os.getpid(), _DUMP_N[0])), "w") as f:
+                f.write(s.to_smt2())
         r = s.check()
         self.stats.solver_s += time.time() - t0
         if r == z3.sat:
@@ -435,7 +448,7 @@ class Run:
                 r, m = self.check_sat(extra + reg, logic=logic, rlimit=min(rlimit or self.cfg.ob_rlimit, self.cfg.approx_rlimit),
                                       timeout_ms=self.cfg.approx_timeout_ms)
             else:
-                r, m = self.check_sat(extra + reg, logic=logic, rlimit=rlimit)
+                r, m = self._decide(extra + reg, logic, rlimit)
             if r == "sat" and self.approx_conds and not hard_soft:
                 dep = False
                 for c in self.approx_conds:
@@ -490,6 +503,68 @@ class Run:
                     self.stats.unknowns.append({"obligation": name, "case": self.ex.case_label,
                                                 "decisions": list(self.decisions)})
         return verdict
+
+    def _decide(self, cons, logic, rlimit):
+        """Decide pc + cons.  With cfg.falsify_samples the query first gets a short slice; if that does not
+        settle it, counterexample candidates are looked for in sub-boxes (a random subset of the inputs pinned
+        to small values, the solver completes the rest - far fewer non-linear variables); only then the full
+        budget is spent.  A model found in a sub-box is a model of the full query, so the verdict is the same
+        as without the shortcut; 'unsat' and 'unknown' only ever come from an unrestricted query."""
+        if not self.cfg.falsify_samples:
+            return self.check_sat(cons, logic=logic, rlimit=rlimit)
+        full = rlimit or self.cfg.ob_rlimit
+        r, m = self.check_sat(cons, logic=logic, rlimit=min(full, self.cfg.falsify_first_rlimit), timeout_ms=self.cfg.falsify_first_ms)
+        if r != "unknown":
+            return r, m
+        # proof by weakening: 'unsat' from a subset of the path condition carries over to the whole (irrelevant
+        # non-linear facts about other variables can derail the cylindrical decomposition).  Single-variable
+        # facts (domains) are always kept; the other path constraints are tried one and two at a time.
+        def nvars(c):
+            seen, todo = set(), [c]
+            while todo and len(seen) < 2:
+                e = todo.pop()
+                if z3.is_const(e) and e.decl().kind() == z3.Z3_OP_UNINTERPRETED:
+                    seen.add(e.get_id())
+                else:
+                    todo.extend(e.children())
+            return len(seen)
+        dom = [c for c in self.pc if nvars(c) <= 1]
+        rest = [c for c in self.pc if nvars(c) > 1]
+        t_end = time.time() + self.cfg.falsify_budget_s / 2
+        subsets = [[c] for c in rest] + [[a, b] for i, a in enumerate(rest) for b in rest[i + 1:]]
+        for sub in subsets[:60]:
+            if time.time() > t_end:
+                break
+            r1, _m1 = self.check_sat(list(cons), logic=logic, rlimit=min(full, self.cfg.falsify_first_rlimit), timeout_ms=2000,
+                                     pc=dom + sub)
+            if r1 == "unsat":
+                return "unsat", None
+        import random as _random
+        import zlib
+        rnd = _random.Random(zlib.crc32(repr([str(c)[:80] for c in cons[:3]]).encode()))
+        names = list(self.inputs.items())
+        small = [0, 1, -1, 2, -2, 3, 5, 10, 20, 7, z3.Q(1, 2), z3.Q(-1, 2), z3.Q(1, 4), z3.Q(3, 2), z3.Q(9, 10), z3.Q(9, 5)]
+        t_end = time.time() + self.cfg.falsify_budget_s
+        for _ in range(self.cfg.falsify_samples):
+            if time.time() > t_end or len(names) < 2:
+                break
+            k = rnd.randint(max(1, len(names) // 3), max(1, (2 * len(names)) // 3))
+            pins = []
+            for name, v in rnd.sample(names, k):
+                if z3.is_real(v):
+                    pins.append(v == rnd.choice(small))
+                elif z3.is_int(v):
+                    lo, hi = self.input_bounds.get(name, (None, None))
+                    if lo is None or hi is None:
+                        x = rnd.choice([0, 1, -1, 2, -2, 3, 5, 10, 20, 7])
+                    else:
+                        mag = max(abs(lo), abs(hi), 1)
+                        x = min(max(int(2 ** rnd.uniform(0, mag.bit_length())) * rnd.choice((1, -1)), lo), hi)
+                    pins.append(v == x)
+            r2, m2 = self.check_sat(list(cons) + pins, logic=logic, rlimit=min(full, self.cfg.falsify_first_rlimit), timeout_ms=3000)
+            if r2 == "sat":
+                return r2, m2
+        return self.check_sat(cons, logic=logic, rlimit=rlimit)
 
     def _alternatives(self, extra, first, logic, rlimit):
         """Further models of a soft counterexample query, each differing from all earlier ones in every
